@@ -47,6 +47,8 @@ val gmin : ('a1 -> 'a1 -> comparison) -> 'a1 -> 'a1 -> 'a1
 module Nat :
  sig
   val eqb : nat -> nat -> bool
+
+  val leb : nat -> nat -> bool
  end
 
 module Pos :
@@ -191,7 +193,13 @@ val tl : 'a1 list -> 'a1 list
 
 val nth : nat -> 'a1 list -> 'a1 -> 'a1
 
+val last : 'a1 list -> 'a1 -> 'a1
+
+val removelast : 'a1 list -> 'a1 list
+
 val rev : 'a1 list -> 'a1 list
+
+val concat : 'a1 list list -> 'a1 list
 
 val map : ('a1 -> 'a2) -> 'a1 list -> 'a2 list
 
@@ -735,6 +743,54 @@ val last_nonzero : z list -> z -> z -> z
 val rc_loop : nat -> z list -> z -> q -> z -> q
 
 val rc : z list -> q
+
+val thin_elems : ((z * z) * bool) list list
+
+val euler_lookup4_x4 : z list
+
+val euler_lookup8_x4 : z list
+
+val euler_powers : z list list
+
+val fgb : arr -> z list -> bool
+
+val tmatch : arr -> ((z * z) * bool) list -> z list -> bool
+
+val thin_pass : arr -> ((z * z) * bool) list -> arr
+
+val thin_round : arr -> arr
+
+val thin_loop : nat -> arr -> arr
+
+val thin : arr -> z list
+
+val pad_br : arr -> arr
+
+val euler_x4 : bool -> arr -> z
+
+type pt = z * z
+
+val forward_lt : pt -> pt -> bool
+
+val reverse_lt : pt -> pt -> bool
+
+val is_left : pt -> pt -> pt -> z
+
+val pinsert : (pt -> pt -> bool) -> pt -> pt list -> pt list
+
+val psort : (pt -> pt -> bool) -> pt list -> pt list
+
+val chain_pop : pt list -> pt -> pt list -> pt list * pt list
+
+val chain_step : (pt list * pt list) -> pt -> pt list * pt list
+
+val scan : (pt -> pt -> bool) -> pt list -> pt list * pt list
+
+val graham : pt list -> pt list
+
+val fg_points : arr -> pt list
+
+val convexhull : arr -> pt list
 
 val gbernsen_px : q -> q -> q -> q -> q -> bool
 
